@@ -1430,6 +1430,218 @@ theorem Dijkl_swap_cubic (c11 c12 c44 : α) (nodes : List (QNode α)) (dA : α) 
 
 end orientation
 
+/-! ## array calls: `compute` on an (n × 3) array is the list of the single-row energies
+(round 5, seed C16-12: a loop that hands the previous row's energy to a row with the same axis ratios is exact for
+single calls, for arrays of distinct shapes and for unit-volume rows, and returns E/E₀ = 1 instead of s³ for the same
+shape at another size.)  `computeRows f rows` models `[description.computeStrainEnergy(ri) for ri in r]`; `f` is the
+single-row energy, for the history model `computeOf ev inv4 simple h`. -/
+section rows
+variable {α : Type} [Field α] [LinearOrder α] [IsStrictOrderedRing α] [Trans α]
+
+theorem computeRows_length (f : V3 α → α) (rows : List (V3 α)) :
+    (computeRows f rows).length = rows.length := by
+  simp [computeRows]
+
+/-- **row i of the array call is the single call on row i** -/
+theorem computeRows_getElem (f : V3 α → α) (rows : List (V3 α)) (i : Nat) (h : i < rows.length) :
+    (computeRows f rows)[i]'(by simpa [computeRows] using h) = f rows[i] := by
+  simp [computeRows]
+
+theorem computeRows_getElem? (f : V3 α → α) (rows : List (V3 α)) (i : Nat) :
+    (computeRows f rows)[i]? = rows[i]?.map f := by
+  simp [computeRows]
+
+/-- a call with one row (what `np.atleast_2d` makes of a single triple) -/
+theorem computeRows_single (f : V3 α → α) (r : V3 α) : computeRows f [r] = [f r] := rfl
+
+theorem computeRows_append (f : V3 α → α) (a b : List (V3 α)) :
+    computeRows f (a ++ b) = computeRows f a ++ computeRows f b := by
+  simp [computeRows]
+
+/-- a row does not see the rows before it: the result of row i is the same whatever precedes / follows it -/
+theorem computeRows_context (f : V3 α → α) (a b a' b' : List (V3 α)) (r : V3 α) :
+    (computeRows f (a ++ r :: b))[a.length]? = (computeRows f (a' ++ r :: b'))[a'.length]? := by
+  simp [computeRows]
+
+theorem computeRows_getD (f : V3 α → α) (rows : List (V3 α)) (i : Nat) (d : V3 α) :
+    (computeRows f rows).getD i (f d) = f (rows.getD i d) := by
+  simp only [computeRows, List.getD_eq_getElem?_getD, List.getElem?_map]
+  cases rows[i]? <;> rfl
+
+/-- **rows permuted → results permuted** (as multisets) -/
+theorem computeRows_perm (f : V3 α → α) {rows rows' : List (V3 α)} (h : rows.Perm rows') :
+    (computeRows f rows).Perm (computeRows f rows') := h.map f
+
+/-- … and position by position: the call on `rows[idx]` returns `results[idx]` for EVERY list of row numbers
+(permutations, repetitions, sub-selections) -/
+theorem computeRows_takeRows (f : V3 α → α) (rows : List (V3 α)) (idx : List Nat) (d : V3 α) :
+    computeRows f (takeRows d rows idx) = takeRows (f d) (computeRows f rows) idx := by
+  simp only [takeRows, computeRows, List.map_map]
+  apply List.map_congr_left
+  intro i _
+  exact (computeRows_getD f rows i d).symm
+
+/-- a repeated row gets the same energy -/
+theorem computeRows_repeated (f : V3 α → α) (rows : List (V3 α)) (i j : Nat) (h : rows[i]? = rows[j]?) :
+    (computeRows f rows)[i]? = (computeRows f rows)[j]? := by
+  simp only [computeRows_getElem?, h]
+
+/-- **cube scaling inside one array call**: if row i is row j scaled by s then result i = s³ · result j, for every
+single-row energy that scales with the cube -/
+theorem computeRows_cube_scaling (f : V3 α → α) (hf : ∀ s r, 0 < s → f (smul3 s r) = s ^ 3 * f r)
+    (rows : List (V3 α)) (i j : Nat) (s : α) (hs : 0 < s) (r : V3 α)
+    (hj : rows[j]? = some r) (hi : rows[i]? = some (smul3 s r)) :
+    (computeRows f rows)[j]? = some (f r) ∧ (computeRows f rows)[i]? = some (s ^ 3 * f r) := by
+  simp only [computeRows_getElem?, hj, hi, Option.map_some, hf s r hs, and_self]
+
+/-- the closed-form descriptions as `compute` dispatches them (the driver's `computeSimple`; the value for an
+ellipsoidal description is not used by `computeOf`) -/
+def simpleGen (s : State α) (r : V3 α) : α :=
+  match s.desc with
+  | .constant => constant_energy s.constE (r 0) (r 1) (r 2)
+  | .sphere => khach_sphere (s.p.cM2 0 0) (s.p.cM2 0 1) (s.p.cM2 3 3) (s.eig 0 0) (r 0) (r 1) (r 2)
+  | .cube => khach_cube (s.p.cM2 0 0) (s.p.cM2 0 1) (s.p.cM2 3 3) (s.eig 0 0) (r 0) (r 1) (r 2)
+  | .ellipsoid => 0
+
+theorem simpleGen_size_scaling (st : State α) (s : α) (r : V3 α) :
+    simpleGen st (smul3 s r) = s ^ 3 * simpleGen st r := by
+  unfold simpleGen
+  cases st.desc
+  · simp only [smul3, constant_energy]; ring
+  · simp only [smul3, khach_sphere, npow]; ring
+  · simp only [smul3, khach_cube, npow]; ring
+  · simp
+
+/-- `compute` of the history model scales with the cube of the size, whatever the description -/
+theorem computeOf_size_scaling (hsq : ∀ s x : α, 0 ≤ s → Trans.sqrt (s * s * x) = s * Trans.sqrt x)
+    (ev : Eval α) (hev : ev.Lawful) (inv4 : T4 α → T4 α) (h : HState α) (s : α) (hs : 0 < s) (r : V3 α) :
+    computeOf ev inv4 simpleGen h (smul3 s r) = s ^ 3 * computeOf ev inv4 simpleGen h r := by
+  obtain ⟨_, h4, _⟩ := hev
+  unfold computeOf
+  cases hd : h.st.desc
+  · simp only []; exact simpleGen_size_scaling h.st s r
+  · simp only []; exact simpleGen_size_scaling h.st s r
+  · simp only []; exact simpleGen_size_scaling h.st s r
+  · simp only [h4]
+    exact bohm_size_scaling_beta hsq ev inv4 (ohmOf h.st.p.cM4) h.quad.nodes h.quad.dA s r h.st.p.cM4 h.st.p.cP4
+      h.st.eig hs
+
+/-- **the array call of the history model**: same shape at another size inside one call → s³ -/
+theorem compute_rows_cube_scaling (hsq : ∀ s x : α, 0 ≤ s → Trans.sqrt (s * s * x) = s * Trans.sqrt x)
+    (ev : Eval α) (hev : ev.Lawful) (inv4 : T4 α → T4 α) (h : HState α)
+    (rows : List (V3 α)) (i j : Nat) (s : α) (hs : 0 < s) (r : V3 α)
+    (hj : rows[j]? = some r) (hi : rows[i]? = some (smul3 s r)) :
+    (computeRows (computeOf ev inv4 simpleGen h) rows)[j]? = some (computeOf ev inv4 simpleGen h r) ∧
+    (computeRows (computeOf ev inv4 simpleGen h) rows)[i]? = some (s ^ 3 * computeOf ev inv4 simpleGen h r) :=
+  computeRows_cube_scaling _ (fun s r hs => computeOf_size_scaling hsq ev hev inv4 h s hs r) rows i j s hs r hj hi
+
+/-! the reuse-previous-row variant -/
+
+theorem computeRowsReuse_pair (same : V3 α → V3 α → Bool) (f : V3 α → α) (p r : V3 α) :
+    computeRowsReuse same f [p, r] = [f p, if same p r then f p else f r] := rfl
+
+/-- the variant is WRONG for the same shape at another size whenever the energy scales with the cube and is not 0 -/
+theorem computeRowsReuse_differs (same : V3 α → V3 α → Bool) (f : V3 α → α) (p : V3 α) (s : α)
+    (hsame : same p (smul3 s p) = true) (hf : f (smul3 s p) = s ^ 3 * f p) (h0 : f p ≠ 0) (hs : s ^ 3 ≠ 1) :
+    computeRowsReuse same f [p, smul3 s p] ≠ computeRows f [p, smul3 s p] := by
+  rw [computeRowsReuse_pair, hsame]
+  simp only [computeRows, List.map_cons, List.map_nil, if_true, hf]
+  intro h
+  have h2 : f p = s ^ 3 * f p := by simpa using h
+  have h3 : (s ^ 3 - 1) * f p = 0 := by linear_combination -h2
+  rcases mul_eq_zero.mp h3 with h4 | h4
+  · exact hs (by linear_combination h4)
+  · exact h0 h4
+
+/-- the variant is INVISIBLE (equal to the code) whenever rows that `same` identifies have equal energy — e.g. the
+unit-volume radii `ShapeFactor.normalRadii` that the KWN model passes -/
+theorem computeRowsReuseFrom_eq (same : V3 α → V3 α → Bool) (f : V3 α → α)
+    (hsame : ∀ p r, same p r = true → f r = f p) (rows : List (V3 α)) :
+    ∀ prev : Option (V3 α × α), (∀ p e, prev = some (p, e) → e = f p) →
+      computeRowsReuseFrom same f prev rows = computeRows f rows := by
+  induction rows with
+  | nil => intro prev _; cases prev <;> rfl
+  | cons r rs ih =>
+    intro prev hp
+    cases prev with
+    | none =>
+      simp only [computeRowsReuseFrom, computeRows, List.map_cons]
+      congr 1
+      exact ih _ (fun p e h => by cases h; rfl)
+    | some pe =>
+      obtain ⟨p, e⟩ := pe
+      have he : e = f p := hp p e rfl
+      have hval : (if same p r then e else f r) = f r := by
+        by_cases hs : same p r = true
+        · rw [if_pos hs, he]; exact (hsame p r hs).symm
+        · rw [if_neg hs]
+      simp only [computeRowsReuseFrom, computeRows, List.map_cons, hval]
+      congr 1
+      exact ih _ (fun p' e' h => by cases h; rfl)
+
+theorem computeRowsReuse_eq_of_equal_energy (same : V3 α → V3 α → Bool) (f : V3 α → α)
+    (hsame : ∀ p r, same p r = true → f r = f p) (rows : List (V3 α)) :
+    computeRowsReuse same f rows = computeRows f rows :=
+  computeRowsReuseFrom_eq same f hsame rows none (fun _ _ h => by cases h)
+
+/-- no two consecutive rows identified by `same` (arrays of distinct aspect ratios) -/
+def NoAdjacentSame (same : V3 α → V3 α → Bool) : List (V3 α) → Prop
+  | [] => True
+  | [_] => True
+  | p :: r :: rs => same p r = false ∧ NoAdjacentSame same (r :: rs)
+
+/-- … and INVISIBLE on arrays in which no two consecutive rows have the same shape -/
+theorem computeRowsReuse_eq_of_distinct (same : V3 α → V3 α → Bool) (f : V3 α → α) (rows : List (V3 α))
+    (h : NoAdjacentSame same rows) : computeRowsReuse same f rows = computeRows f rows := by
+  cases rows with
+  | nil => rfl
+  | cons p rs =>
+    simp only [computeRowsReuse, computeRowsReuseFrom, computeRows, List.map_cons]
+    congr 1
+    induction rs generalizing p with
+    | nil => rfl
+    | cons r rs ih =>
+      obtain ⟨h1, h2⟩ := h
+      simp only [computeRowsReuseFrom, h1, List.map_cons]
+      simp only [Bool.false_eq_true, if_false]
+      congr 1
+      exact ih r h2
+
+/-- **witness** (exact rationals): rows (1,1,2) and (2,2,4) = 2·(1,1,2), energy ∝ prod(r): the code's list is
+[2, 16] (ratio 8 = 2³), the reuse variant returns [2, 2] (ratio 1) -/
+theorem computeRowsReuse_witness :
+    computeRows prod3 [vec3 (1 : ℚ) 1 2, vec3 2 2 4] = [2, 16] ∧
+    computeRowsReuse sameRatios prod3 [vec3 (1 : ℚ) 1 2, vec3 2 2 4] = [2, 2] ∧
+    sameRatios (vec3 (1 : ℚ) 1 2) (vec3 2 2 4) = true ∧
+    vec3 (2 : ℚ) 2 4 = smul3 2 (vec3 1 1 2) := by
+  refine ⟨?_, ?_, ?_, ?_⟩
+  · simp [computeRows, prod3, vec3]; norm_num
+  · simp [computeRowsReuse, computeRowsReuseFrom, sameRatios, prod3, vec3]; norm_num
+  · simp [sameRatios, vec3]; norm_num
+  · funext i; fin_cases i <;> simp [vec3, smul3] <;> norm_num
+
+theorem computeRowsReuse_witness_ne :
+    computeRowsReuse sameRatios prod3 [vec3 (1 : ℚ) 1 2, vec3 2 2 4] ≠ computeRows prod3 [vec3 (1 : ℚ) 1 2, vec3 2 2 4] := by
+  rw [computeRowsReuse_witness.1, computeRowsReuse_witness.2.1]; decide
+
+/-! non-vacuity of the hypothesis sets of this section -/
+example : ∀ (s : ℚ) (r : V3 ℚ), 0 < s → prod3 (smul3 s r) = s ^ 3 * prod3 r := fun s r _ => by
+  simp only [prod3, smul3]; ring
+example : ([vec3 (1 : ℚ) 1 2, vec3 3 3 3, vec3 2 2 4])[0]? = some (vec3 1 1 2) ∧
+    ([vec3 (1 : ℚ) 1 2, vec3 3 3 3, vec3 2 2 4])[2]? = some (smul3 2 (vec3 1 1 2)) ∧ (0 : ℚ) < 2 := by
+  refine ⟨rfl, ?_, by norm_num⟩
+  simp only [List.getElem?_cons_succ, List.getElem?_cons_zero, Option.some.injEq]
+  exact computeRowsReuse_witness.2.2.2
+example : sameRatios (vec3 (1 : ℚ) 1 2) (smul3 2 (vec3 1 1 2)) = true ∧ prod3 (vec3 (1 : ℚ) 1 2) ≠ 0 ∧ (2 : ℚ) ^ 3 ≠ 1 := by
+  refine ⟨?_, ?_, by norm_num⟩
+  · simp [sameRatios, vec3, smul3]
+  · simp [prod3, vec3]
+example : ∀ p r : V3 ℚ, sameRatios p r = true → (fun _ : V3 ℚ => (5 : ℚ)) r = (fun _ : V3 ℚ => (5 : ℚ)) p := fun _ _ _ => rfl
+example : NoAdjacentSame sameRatios [vec3 (1 : ℚ) 1 2, vec3 1 1 3, vec3 1 1 2] := by
+  refine ⟨?_, ?_, trivial⟩ <;> simp [sameRatios, vec3]
+
+end rows
+
 /-! ## real numbers: the laws of sqrt used above hold -/
 section real
 open Real
@@ -1485,6 +1697,15 @@ theorem real_bohm_size_scaling (ev : Eval ℝ) (inv4 : T4 ℝ → T4 ℝ) (ohm :
     energyBohm ev inv4 cM cP (Sijmn cM (Dijkl ohm betaN nodes dA (smul3 s r))) eig (volume (smul3 s r)) =
       s ^ 3 * energyBohm ev inv4 cM cP (Sijmn cM (Dijkl ohm betaN nodes dA r)) eig (volume r) :=
   bohm_size_scaling_beta real_sqrt_scale ev inv4 ohm nodes dA s r cM cP eig hs
+
+/-- over ℝ: inside ONE array call of the history model, a row that is another row scaled by s > 0 gets s³ times its
+energy (every description, every settings history h) -/
+theorem real_compute_rows_cube_scaling (ev : Eval ℝ) (hev : ev.Lawful) (inv4 : T4 ℝ → T4 ℝ) (h : HState ℝ)
+    (rows : List (V3 ℝ)) (i j : Nat) (s : ℝ) (hs : 0 < s) (r : V3 ℝ)
+    (hj : rows[j]? = some r) (hi : rows[i]? = some (smul3 s r)) :
+    (computeRows (computeOf ev inv4 simpleGen h) rows)[j]? = some (computeOf ev inv4 simpleGen h r) ∧
+    (computeRows (computeOf ev inv4 simpleGen h) rows)[i]? = some (s ^ 3 * computeOf ev inv4 simpleGen h r) :=
+  compute_rows_cube_scaling real_sqrt_scale ev hev inv4 h rows i j s hs r hj hi
 
 /-- over ℝ: β² = Σ (rᵢ nᵢ)² for the traced `_beta` and `_n` -/
 theorem real_beta_sq_eq_quadratic_form (a b c φ θ : ℝ) :
